@@ -325,7 +325,7 @@ fn worker_loop(shared: Arc<Shared>, wd: Arc<Watchdog>, prop: String, tier: Tier,
                             current = None;
                             start = i + 1;
                         } else if let Some(rest) = l.strip_prefix("S ") {
-                            if let Ok(a) = serde_json::from_str::<Agg>(rest) {
+                            if let (Ok(a), true) = (serde_json::from_str::<Agg>(rest), audit.is_none()) {
                                 let mut g = shared.results.lock().unwrap();
                                 g.agg.merge(&a);
                                 g.states.extend(a.states.iter());
